@@ -126,6 +126,12 @@ func (r *walRun) put(n int) {
 	}
 	err := r.fq.Queue().Put(p)
 	r.w.ClearPut()
+	if err != nil && errors.Is(err, errInjectedAcquire) {
+		// the roll-over could not get its new page: the call failed, it consumed no sequence
+		r.rec.Emit("PutFail", trace.F{"t": "main", "len": n})
+		r.proj(nil)
+		return
+	}
 	if err != nil {
 		r.rec.Emit("Error", trace.F{"op": "Put", "err": err.Error()})
 	}
@@ -284,6 +290,45 @@ func (r *walRun) bigHistory() {
 	}
 }
 
+var errInjectedAcquire = errors.New("injected: cannot acquire the next data page")
+
+// rollFailHistory: the data page is nearly full, the append that has to roll over cannot get its new page
+// (open / truncate / mmap failure) and fails; later appends, a later successful roll-over, reads and a reopen follow:
+// the failed call consumed no sequence and no earlier message changed
+func (r *walRun) rollFailHistory() {
+	rng := r.rng
+	const mib = 1024 * 1024
+	r.put(70*mib + rng.Intn(10*mib))
+	if rng.Intn(2) == 0 {
+		r.put(1 + rng.Intn(100))
+	}
+	fails := 1 + rng.Intn(2)
+	r.w.FailAcquire = func(kind string, _ int64) error {
+		if kind == "data" {
+			return errInjectedAcquire
+		}
+		return nil
+	}
+	for i := 0; i < fails; i++ {
+		r.put(60*mib + rng.Intn(10*mib)) // does not fit: roll-over, fails
+	}
+	r.w.FailAcquire = nil
+	for i := 0; i < 1+rng.Intn(3); i++ {
+		r.put(1 + rng.Intn(100)) // still fits into the current page
+	}
+	r.put(60*mib + rng.Intn(10*mib)) // the roll-over succeeds now
+	r.put(1 + rng.Intn(100))
+	r.rec.Emit("Down", trace.F{"how": "close"})
+	r.fq.Close()
+	if err := r.open(); err != nil {
+		r.rec.Emit("Error", trace.F{"op": "Reopen", "err": err.Error()})
+		return
+	}
+	r.rec.Emit("Reopen", trace.F{})
+	r.proj(nil)
+	r.put(1 + rng.Intn(100))
+}
+
 // boundaryHistory: the append position is moved forward (the explicit reset a follower uses) to just
 // below a multiple of the index page capacity (262144 entries), appends land on the LAST slot of an index
 // page, the queue is reopened exactly there, and more appends / reads follow: recovery of the write cursor
@@ -356,6 +401,7 @@ func walMain(args []string) int {
 	images := fs.Int("images", 0, "histories whose every store is imaged and recovered")
 	bigs := fs.Int("big", 0, "histories with messages large enough to roll data pages over")
 	bounds := fs.Int("boundary", 0, "histories that reopen the queue on the last slot of an index page")
+	rollfails := fs.Int("rollfail", 0, "histories in which the roll-over to the next data page fails (page acquisition fault)")
 	nconc := fs.Int("concurrent", 0, "concurrent-appender histories (gated)")
 	scratch := fs.String("scratch", "", "scratch directory")
 	_ = fs.Parse(args)
@@ -373,14 +419,15 @@ func walMain(args []string) int {
 	sum := &trace.Summary{Module: "WALQueue", Extra: map[string]any{}}
 	nimages, nstores := 0, 0
 	distinct := map[string]bool{}
-	for h := 0; h < *nh+*bigs+*bounds; h++ {
+	for h := 0; h < *nh+*bigs+*bounds+*rollfails; h++ {
 		big := h >= *nh && h < *nh+*bigs
-		boundary := h >= *nh+*bigs
+		boundary := h >= *nh+*bigs && h < *nh+*bigs+*bounds
+		rollfail := h >= *nh+*bigs+*bounds
 		root := filepath.Join(*scratch, fmt.Sprintf("h%d", h))
 		w := walwrap.NewWorld(root, rec)
 		restore := w.Install()
 		run := &walRun{w: w, rec: rec, rng: rand.New(rand.NewSource(rng.Int63())), image: h < *images || big}
-		reset := trace.F{"mode": "seq", "h": h, "big": big, "boundary": boundary}
+		reset := trace.F{"mode": "seq", "h": h, "big": big, "boundary": boundary, "rollfail": rollfail}
 		rec.Reset(reset)
 		rec.Tap = func(b []byte) { run.lines = append(run.lines, append([]byte{}, b...)) }
 		w.OnStore = func(k int) {
@@ -401,6 +448,8 @@ func walMain(args []string) int {
 			run.bigHistory()
 		} else if boundary {
 			run.boundaryHistory()
+		} else if rollfail {
+			run.rollFailHistory()
 		} else {
 			for i := 0; i < n; i++ {
 				run.randomOp(false)
